@@ -163,6 +163,7 @@ def render(insts, hdrs, with_conv):
 
 
 IN_SCOPE_DESPITE_MODEL = set()
+REFUSED_DESPITE_MODEL = []  # instances whose conversion the model expects to compile and clang refuses
 UNDECIDED_CONV = []  # (instance, reason): conversion compiles but its DAG cannot be built
 
 
@@ -222,6 +223,8 @@ def build_module(ctx, insts, hdrs, tag):
             k = alive[j]
             if with_conv[k]:
                 with_conv[k] = False  # first try without the conversion wrappers
+                if insts[k].conv_compiles():
+                    REFUSED_DESPITE_MODEL.append(insts[k])
             else:
                 dropped.append(insts[k])
                 alive[j] = None
@@ -248,6 +251,8 @@ def build_module(ctx, insts, hdrs, tag):
         if wcv is None:
             dropped.append(insts[k])
         else:
+            if with_conv[k] and not wcv and insts[k].conv_compiles():
+                REFUSED_DESPITE_MODEL.append(insts[k])
             with_conv[k] = wcv
             keep.append(k)
     keep.sort()
@@ -653,6 +658,32 @@ def run(ctx, prop):
             stats["functions"] += 5 if hc else 3
             if len(samples) < 5 and hc and rnd.random() < 0.05:
                 samples.append(dict(instance=inst.key, source=inst.src, cells=ncell, obligations=nob))
+    # "for which the conversion compiles" is asked of BOTH compilers: an instance the model expects to
+    # compile and clang refuses is put to g++; accepted there, the two compilers disagree about a
+    # program of the public API (and the instance silently left this check's scope)
+    ref = {i.key: i for i in REFUSED_DESPITE_MODEL}
+    nref_both = 0
+    if ref:
+        import os
+        wd = ctx.sub("REFUSED2")
+
+        def ask_gcc(inst):
+            text, _ = render([inst], hdrs, [True])
+            pth = os.path.join(wd, "g_%s.cc" % abs(hash(inst.key)))
+            with open(pth, "w") as f:
+                f.write(text)
+            rc, so, se = cxx.run(["g++", "-std=c++14", "-fsyntax-only", "-w", "-I" + ir.AU_INC, "-I" + ir.VERIF_INC, pth])
+            rc2, so2, se2 = cxx.run(["clang++", "-std=c++14", "-fsyntax-only", "-w", "-I" + ir.AU_INC, "-I" + ir.VERIF_INC, pth])
+            d = cxx.parse_clang(se2)
+            return inst, rc == 0, rc2 == 0, ("%s: %s" % (d[0].where(), d[0].msg[:160])) if d else se2[-160:]
+        for inst, gcc_ok, clang_ok, err in cxx.pmap(ask_gcc, list(ref.values())):
+            if gcc_ok and not clang_ok:
+                findings.append((prop, "%s|compilers-disagree" % inst.key, "compilers-disagree", 0,
+                                 "the conversion %s (coerce_in / coerce_as) is accepted by g++ and refused by clang++ (-std=c++14): %s" % (inst.key, err)))
+            elif not gcc_ok and not clang_ok:
+                nref_both += 1
+    stats["refused_by_both_despite_model"] = nref_both
+    ctx.require(nref_both * 20 <= max(1, stats["instances"]), "%d instances whose conversion the model expects to compile are refused by both compilers (model out of date?)" % nref_both)
     ctx.require(stats["instances"] >= (200 if not ctx.thorough else 1500),
                 "only %d instances analysed" % stats["instances"])
     # report only this property's findings; the other property's are counted
@@ -679,7 +710,7 @@ def run(ctx, prop):
              "disjunction, flagged=>really fails; C03: cleared=>defined, in range, exact)",
         samples=samples, exhaustive=False,
         instances_analysed=stats["instances"], instances_not_compiling=stats["dropped"],
-        instances_checker_only=stats["without_conv"], cells=stats["cells"],
+        instances_checker_only=stats["without_conv"], conversions_refused_by_both_compilers_despite_model=stats.get("refused_by_both_despite_model", 0), cells=stats["cells"],
         ir_functions_analysed=stats["functions"],
         findings_for_other_property=len(other),
     ))
